@@ -151,7 +151,7 @@ static void op_create_ex(actor *a, int ui, int how, int xsi)
     if (u->created)
         generr("unit %d created twice", ui);
     void *arg = next_uarg(u);
-    void (*fn)(void *) = u->alt_fn ? unit_fn1 : unit_fn0;
+    void (*fn)(void *) = u->alt_fn ? unit_fn1_shim : unit_fn0_shim;
     ABT_pool pool = G.pool[u->pool].h;
     u->expect_pool = u->pool;
     int rc;
@@ -210,7 +210,7 @@ static void op_revive(actor *a, int ui, int pool, int to)
     u->expect_pool = pool;
     u->cur_pool = pool;
     void *arg = next_uarg(u);
-    void (*fn)(void *) = u->alt_fn ? unit_fn1 : unit_fn0;
+    void (*fn)(void *) = u->alt_fn ? unit_fn1_shim : unit_fn0_shim;
     int rc;
     ABT_thread before = u->h;
     if (u->utype == U_ULT) {
